@@ -104,7 +104,7 @@ def check_case(case):
 
     # default solution range
     extra = case.get('extra', 2)
-    n = L + K + 1 + extra
+    n = max(1, L + K + 1 + extra)       # (a negative `extra`: a span too short for the lags and leads)
     if mixed:
         n = max(n, 5)
     span = R.mixed_span(n) if mixed else list(range(100, 100 + n))
@@ -114,6 +114,16 @@ def check_case(case):
         return res
     m = made.value
     out = R.quiet_call(attempt, m.solve, max_iter=2, failures='ignore', errors='ignore')
+    if n < L + K + 1:
+        # a span too short for the lags and leads: no period reads inside the span, so none may be offered / solved
+        # (refusing with an exception and returning an empty range both qualify)
+        res.tag('span-shorter-than-lags+leads+1')
+        res.nontrivial = True
+        touched = [i for i in range(n) if str(m.status[i]) != '-' or int(m.iterations[i]) != -1]
+        if (out.ok and list(out.value[1])) or touched:
+            res.fail('default-range/period-offered-on-too-short-span',
+                     f'{text!r} {kw}: LAGS={L} LEADS={K} on {n} period(s): solve() -> {out!r}, status {list(m.status)}')
+        return res
     if not out.ok:
         # an equation that raises in Python (e.g. integer division by zero) - nothing to compare
         res.tag('solve-raised:' + out.exc_name)
@@ -210,7 +220,7 @@ def accept_cases(named):
                                max_offset=3, big_offsets=not named),
             'tape': G.tapes(10),
             'opts': st.tuples(side, side2).map(lambda ab: {**ab[0], **ab[1]}),
-            'extra': st.integers(0, 3),
+            'extra': st.sampled_from([0, 1, 2, 3, -1, -2, -3]),
             'rep': tapes(4),
         })
     return make
@@ -223,7 +233,7 @@ def gen_enumerated(max_nodes):
                   {'lags': 1, 'min_lags': 3}, {'leads': 0, 'min_leads': 2}, {'lags': 3, 'min_lags': 1},
                   {'lags': 0, 'min_lags': 1, 'leads': 2, 'min_leads': 3}]
         for i, prog in enumerate(G.enumerate_programs(max_nodes)):
-            yield {'prog': prog, 'tape': [], 'opts': combos[i % len(combos)], 'extra': i % 3, 'rep': cycle_tape(i)}
+            yield {'prog': prog, 'tape': [], 'opts': combos[i % len(combos)], 'extra': (i % 3) if i % 5 else -1 - (i // 5) % 3, 'rep': cycle_tape(i)}
     return gen
 
 
